@@ -44,3 +44,59 @@ int fdatasync(int fd) {
     if (r == 0) logit(fd, "fdatasync");
     return r;
 }
+
+/* Transient write errors.  $VERIF_IOFAIL = "<path substring>:<n>": the n-th write(2) (counted from
+ * the moment the variable took this value) to a file whose path contains the substring fails with
+ * ENOSPC, once; the event is logged to $FSYNCLOG as "iofail <path> <n>".  Used by the I/O-error
+ * family of C10 (a disk that is full for a moment). */
+#include <errno.h>
+#include <string.h>
+ssize_t write(int fd, const void *buf, size_t count) {
+    static ssize_t (*real)(int, const void *, size_t);
+    static char last[256];
+    static long seen;
+    static int fired;
+    if (!real) real = (ssize_t (*)(int, const void *, size_t))dlsym(RTLD_NEXT, "write");
+    const char *spec = getenv("VERIF_IOFAIL");
+    if (spec && *spec) {
+        if (strncmp(spec, last, sizeof last - 1) != 0) {
+            strncpy(last, spec, sizeof last - 1);
+            seen = 0;
+            fired = 0;
+        }
+        const char *colon = strrchr(spec, ':');
+        if (colon && !fired) {
+            long n = atol(colon + 1);
+            char sub[200];
+            size_t sl = (size_t)(colon - spec);
+            if (sl >= sizeof sub) sl = sizeof sub - 1;
+            memcpy(sub, spec, sl);
+            sub[sl] = 0;
+            char link[64], path[4096];
+            snprintf(link, sizeof link, "/proc/self/fd/%d", fd);
+            ssize_t m = readlink(link, path, sizeof path - 1);
+            if (m > 0) {
+                path[m] = 0;
+                if (strstr(path, sub)) {
+                    seen++;
+                    if (seen == n) {
+                        fired = 1;
+                        const char *lp = getenv("FSYNCLOG");
+                        if (lp) {
+                            char line[4400];
+                            int k = snprintf(line, sizeof line, "iofail %s %ld\n", path, n);
+                            int o = open(lp, O_WRONLY | O_APPEND | O_CREAT, 0644);
+                            if (o >= 0) {
+                                if (real(o, line, k) < 0) { /* nothing to do */ }
+                                close(o);
+                            }
+                        }
+                        errno = ENOSPC;
+                        return -1;
+                    }
+                }
+            }
+        }
+    }
+    return real(fd, buf, count);
+}
